@@ -91,7 +91,10 @@ theorem PL_refLines (i : Nat) (r : RRef) (ℓ : RefLayout) (h : wfRef r = true) 
   intro l hl
   simp only [refLines, List.mem_append] at hl
   rcases hl with hl | ((((hl | hl) | hl) | hl) | hl)
-  · exact PL_block (by decide) (PL_refHead i r (PL_isText h1)) _ l hl
+  · unfold refHeadLines at hl; split at hl
+    · simp only [List.mem_singleton] at hl; subst hl
+      exact PL_append (PL_append (PL_padRight (by decide) 12) (PL_ofNat _)) (by decide)
+    · exact PL_block (by decide) (PL_refHead i r (PL_isText h1)) _ l hl
   · exact PL_optBlock (by decide) (PL_isText h2) _ l hl
   · exact PL_optBlock (by decide) (PL_isText h3) _ l hl
   · exact PL_optBlock (by decide) (PL_isText h4) _ l hl
